@@ -30,6 +30,10 @@ def tt(x):
 
 
 def make_world(ex, shape, real):
+    if shape.get("kind") == "punion":
+        from props import c14
+
+        return c14.make_world(ex, shape, real)
     return World(ex, shape["n"], nprio=len(shape["methods"]), real=real, hm_names=("hm",))
 
 
@@ -60,6 +64,11 @@ def specs(shape):
 def make_run(W, shape, known_active=None):
     from ovld import Ovld
 
+    if shape.get("kind") == "punion":
+        # a union object passed to a method on type[T]: never entered unless every member is a subtype of T (shared with C14)
+        from props import c14
+
+        return c14.make_run_punion(W, shape)
     n = shape["n"]
     methods = shape["methods"]
     M = len(methods)
@@ -167,7 +176,9 @@ def gen_shapes(tier, seed):
             nargs = rng.choice((1, 1, 2))
             calls.append([[rng.choice(CH) for _ in range(nargs)], rng.choice(CH) if rng.random() < 0.3 else None])
         out.append(dict(n=n, methods=methods, calls=calls))
-    return out, N, True
+    pun = [dict(n=n, kind="punion", ann=T, members=[a, b], spelling=sp) for T in (["K", 0], ["K", 1]) for a in range(n) for b in range(n) if a != b
+           for sp in ("pipe", "typing", "optional")]
+    return out + pun, N + len(pun), True
 
 
 def explore_shape(shape, tier="quick", seed=0, budget_s=20, validate=0):
